@@ -5,7 +5,7 @@
  * C07_SIZES(X) (and optionally C07_FLOAT_SIZES(X)) before including this file.
  *
  * Oracle (long double, refmath.hxx dense helpers):
- *  - success reported  => |b - A x|_inf <= K n u cond_inf (|A||x| + |b|)   (K = 256)
+ *  - success reported  => |b - A x|_inf <= K n u cond_inf (|A||x| + |b|)   (K = 512)
  *  - exactly singular by construction (null row / column, all zero; n<=3 closed
  *    forms: proportional integer rows)  => failure reported (false or LUException)
  *  - safely non singular (u cond < 1e-4) => no failure reported
@@ -35,7 +35,7 @@ namespace {
   struct Lim<float> {
     static constexpr int kmax = 4, condexp = 3;
   };
-  constexpr R Ksolve = 256;
+  constexpr R Ksolve = 512;
   //! n == 3 closed form: class of matrices with a recorded finding (cofactor cancellation)
   template <unsigned short N>
   std::string cofactorClass(const System& s) {
